@@ -2,7 +2,7 @@
    The model find_task_full_name is total on arbitrary text; the component views
    ns_parts / local_parts are the splits the code itself performs. *)
 From Coq Require Import List Ascii String Bool Permutation.
-From TC Require Import PyStr Dict Value Param Names NamesProofs NamesWfProofs Chain ChainProofs.
+From TC Require Import PyStr Dict Value Param Names NamesProofs NamesWfProofs Naming NamingWfProofs Chain ChainProofs.
 Import ListNotations.
 
 (* resolution never depends on the order in which tasks were declared *)
@@ -125,3 +125,16 @@ Proof.
   constructor; [intros p [<-|[<-|[]]]|intros p [<-|[<-|[]]]|]; (split; [discriminate|]);
     unfold colon; simpl; intuition discriminate.
 Qed.
+
+(* the names a chain registers - MetaTask.fullname: the namespaces joined by '::' in front of the slug, the slug being
+   the group levels and the task name joined by ':' (C12) - are well-formed names, so the theorems above apply to them *)
+Theorem C10_registered_names_are_wellformed : forall ns gs n cname,
+  wf ns gs n ->
+  Naming.full_name (match ns with [] => None | _ => Some (join dcolon ns) end) (Naming.slug_name (join [colon] gs) (Some n) cname)
+  = render ns gs n /\
+  wf_name (Naming.full_name (match ns with [] => None | _ => Some (join dcolon ns) end) (Naming.slug_name (join [colon] gs) (Some n) cname)).
+Proof.
+  intros ns gs n cname W. split; [|now apply registered_name_wf].
+  apply full_name_is_rendered. intros p Hp. now destruct (wf_gs _ _ _ W p Hp).
+Qed.
+Print Assumptions C10_registered_names_are_wellformed.
